@@ -352,6 +352,10 @@ func (x *xl) stmt(s ast.Stmt) string {
 }
 
 func main() {
+	if len(os.Args) >= 4 && os.Args[1] == "-fanout" {
+		fanoutMain(os.Args[2], os.Args[3:])
+		return
+	}
 	if len(os.Args) != 3 {
 		fmt.Fprintln(os.Stderr, "usage: xlate <ui.go> <out.v>")
 		os.Exit(2)
